@@ -23,6 +23,9 @@ from rules.common import *
 from rules.order import ok_cut
 import findom
 
+TECHNIQUE = ("static analysis over rustc MIR: finite-domain concrete interpretation of the header codec, symbolic byte-container lengths "
+             "(forward abstract interpretation with linear expressions) for the trailer framing, ordering / provenance rules for packer and indexer")
+
 LEVEL = "other"
 EXHAUSTIVE = True
 EXPLANATION = (
